@@ -187,6 +187,24 @@ class Algebra:
                         for at2, w in self.apply(a[1], []):
                             out.append((at + at2, ("agg", ERR, (w,))))
                 return out
+            if c in (R + "map_or_else", R + "map_or", R + "unwrap_or_else", R + "unwrap_or") and len(a) in (2, 3):
+                # Ok(x) => f(x) (or x), Err(e) => default(e) / default
+                out = []
+                has_f = c in (R + "map_or_else", R + "map_or")
+                lazy = c.endswith("_else")
+                for at, v in self.split(a[0], OK, ERR, IS_OK):
+                    if _is_agg(v, OK):
+                        if has_f:
+                            for at2, w in self.apply(a[2], [v[2][0]]):
+                                out.append((at + at2, w))
+                        else:
+                            out.append((at, v[2][0]))
+                    elif lazy:
+                        for at2, w in self.apply(a[1], [v[2][0]]):
+                            out.append((at + at2, w))
+                    else:
+                        out.append((at, a[1]))
+                return out
             if c in (R + "ok", R + "err") and len(a) == 1:
                 out = []
                 for at, v in self.split(a[0], OK, ERR, IS_OK):
